@@ -9,7 +9,7 @@ EPS = 1e-6
 
 def other_loop_exits_while_pending(hist, cid):
     """Number of run-exit events of loops other than the caller's own between
-    the caller's arrival and its completion (or the end of the run)."""
+    the caller's arrival and its completion (used for labelling only)."""
     c = hist['callers'][cid]
     if c['arrived'] is None:
         return 0
@@ -20,6 +20,28 @@ def other_loop_exits_while_pending(hist, cid):
     for ev in hist['loop_log']:
         if ev[0] in ('run-exit', 'close') and ev[1] != own and a <= ev[3] <= d:
             n += 1
+    return n
+
+
+def computing_loop_deaths(hist, cid):
+    """Deaths that excuse a wait of up to the 60 s safety net for this caller: a loop other than the caller's
+    own stopped running while it hosted an open invocation of the caller's key (or one that ended at that very
+    virtual instant: lenient side), between the caller's arrival and its completion."""
+    c = hist['callers'][cid]
+    if c['arrived'] is None:
+        return 0
+    a = c['arrived'][1]
+    d = c['done'][1] if c['done'] else float('inf')
+    own = c['loop'].sim_name if c['loop'] is not None else None
+    n = 0
+    for ev in hist['loop_log']:
+        if ev[0] != 'run-exit' or ev[1] == own or not (a <= ev[3] <= d):
+            continue
+        for r in hist['invs']:
+            if r['loop_name'] == ev[1] and r['key'] == c['key'] and r['enter'][1] <= ev[3] and \
+                    (r['exit'] is None or r['exit'][1] >= ev[3] or abs(r['exit'][0] - ev[4]) < EPS):
+                n += 1
+                break
     return n
 
 
@@ -52,6 +74,23 @@ def c01(case, hist):
                 out.append(V('wrong-value', f"caller {cid} of key {c['key']!r} received {o[1]!r}; "
                              f"first successful invocation produced {good[0]['value'] if good else None!r}",
                              'wrong-value'))
+    return out
+
+
+def value_provenance(case, hist):
+    """C06: a returned value is the value object of a successful invocation for the caller's key (a failed or
+    cancelled computation caches nothing).  Which one, when a restarted loop lets two invocations succeed, is
+    C01's business and outside its quantifier."""
+    out = []
+    succ = {}
+    for r in hist['invs']:
+        if r['kind'] == 'ret':
+            succ.setdefault(r['key'], []).append(r['value'])
+    for cid, c in hist['callers'].items():
+        o = c['outcome']
+        if o is not None and o[0] == 'ok' and not any(o[1] is v for v in succ.get(c['key'], [])):
+            out.append(V('wrong-value', f"caller {cid} of key {c['key']!r} received {o[1]!r}, which no successful invocation for "
+                         f"that key produced", 'value-without-successful-invocation'))
     return out
 
 
@@ -107,13 +146,18 @@ def c05(case, hist):
         out.append(V('hang', f"run ended in {stop} at virtual t={hist['now']} with callers {pend} still pending",
                      'hang:%s:%s' % ('after-loop-death' if deaths else 'no-loop-death',
                                      'callers-pending' if pend else 'no-caller-pending')))
+    # "callers on other loops recover by recomputing": a caller must not end with an exception that comes from the
+    # cache's own bookkeeping or from another loop's death
+    for v in c06(case, hist):
+        if v['kind'] == 'leaked-exception':
+            out.append(V('no-recovery', v['msg'], 'no-recovery:' + v['sig'].split(':')[1]))
     for cid, s in hist['stalls'].items():
         c = hist['callers'][cid]
-        deaths = other_loop_exits_while_pending(hist, cid)
+        deaths = computing_loop_deaths(hist, cid)
         allowed = 60.0 * min(deaths, 4) + EPS
         if s > allowed:
             out.append(V('stall', f"caller {cid} of key {c['key']!r} waited {s:.4f}s of virtual time with no live invocation of its key "
-                         f"(allowed {allowed:.1f}s: {deaths} other-loop death(s)); intervals {c.get('stall_at')}",
+                         f"(allowed {allowed:.1f}s: {deaths} death(s) of a loop computing its key); intervals {c.get('stall_at')}",
                          'stall:' + ('beyond-safety-net' if deaths else 'no-loop-death')))
     return out
 
